@@ -211,6 +211,60 @@ def r13d(ctx, rep, cr):
     rep.floor('R13d', 'logged decisions followed in their function', n, 4)
 
 
+def r13e(ctx, rep, cr):
+    rep.rule('R13e', 'replay reproduces the logged decision and nothing else: in TxRecoveryState (tx_wal.rs) every store of a TxPhase into '
+                     'the state being rebuilt (a store through a reference or into a field — not the initial tuple built at TxBegin) takes '
+                     'its value from the `to` field of a PhaseChange record. A phase inferred from other records (votes, completions) can '
+                     'contradict a PhaseChange{to: Committing} that is already in the log: the next restart then restores the transaction '
+                     'on the other side of its logged decision')
+    n = 0
+    PH = T.PHASE_ENUM
+    for name, f in [(k, v) for k, v in sorted(cr.fns.items()) if k.startswith(TXW + 'TxRecoveryState::')]:
+        if not f.file.endswith('tx_wal.rs'):
+            continue
+        defs = None
+        for i, b in enumerate(f.bbs):
+            if b['cleanup']:
+                continue
+            for st in b['s']:
+                dst, rv = st[0], st[1]
+                if not dst[1]:
+                    continue
+                base_t = f.locals[dst[0]]
+                typed = False
+                if rv[0] == 'agg' and rv[1].startswith(PH + '::'):
+                    typed = True
+                elif rv[0] == 'use' and rv[1][0] in ('c', 'm'):
+                    pl = rv[1][1]
+                    typed = (not pl[1] and f.locals[pl[0]] == PH) or (pl[1] == ['*'] and f.locals[pl[0]] in ('&' + PH, '&mut ' + PH))
+                elif rv[0] == 'use' and rv[1][0] == 'k':
+                    typed = T._promoted_variant(f, rv[1][1]) is not None or (base_t == '&mut ' + PH and dst[1] == ['*'])
+                if not typed:
+                    continue
+                n += 1
+                rep.analysed(f)
+                defs = defs or A.Defs(f)
+                const = rv[1].split('::')[-1] if rv[0] == 'agg' else None
+                ok = False
+                if rv[0] == 'use' and rv[1][0] != 'k':
+                    v = T._local_variant(f, defs, rv[1][1][0]) if not rv[1][1][1] else None
+                    if v:
+                        const = v
+                    else:
+                        sl = A.backward_slice(f, [rv[1]], defs)
+                        ok = any(x.endswith('TxWalEntry.to') for x in sl.fields)
+                elif rv[0] == 'use':
+                    const = T._promoted_variant(f, rv[1][1]) or 'a constant'
+                if ok:
+                    rep.holds('R13e', f, 'phase store', 'value read from PhaseChange.to (%s)' % f.loc(st[2]))
+                else:
+                    rep.violation('R13e', f, 'phase-not-from-log', f.loc(st[2]),
+                                  'replay sets the phase of a transaction to %s without a PhaseChange record saying so: a transaction whose '
+                                  'PhaseChange{to: Committing} is in the log can come back Aborting (or the reverse) after the next restart'
+                                  % (const or 'a value that is not a logged PhaseChange.to'))
+    rep.floor('R13e', 'phase stores during replay', n, 1)
+
+
 def run(ctx, rep):
     cr = ctx.crate('tensor_chain')
     wal_rules.r02b(ctx, rep, ['TxWal'])
@@ -226,3 +280,4 @@ def run(ctx, rep):
     r13b(ctx, rep, cr)
     r13c(ctx, rep, cr)
     r13d(ctx, rep, cr)
+    r13e(ctx, rep, cr)
